@@ -69,6 +69,19 @@ def gen_obs(rng, L):
                 out.append((Observable(str(rng.choice(TWO)), [s, s + 1]), "Local2"))
             else:
                 out.append((Observable(str(rng.choice(TWO_ENT)), [s, s + 1]), "Local2E"))
+        elif u < 0.7:
+            # user-defined operators (all of them carry the gate name "custom"): two different ones on the same site(s)
+            from mqt.yaqs.core.libraries.gate_library import BaseGate
+
+            two = L >= 2 and rng.random() < 0.4
+            s = int(rng.integers(0, L - 1)) if two else int(rng.integers(0, L))
+            for _ in range(int(rng.integers(1, 3))):
+                dim = 4 if two else 2
+                m = rng.normal(size=(dim, dim)) + 1j * rng.normal(size=(dim, dim))
+                m = (m + m.conj().T) / 2
+                o = Observable(BaseGate(m), [s, s + 1] if two else s)
+                o._verif_matrix = m  # noqa: SLF001 — the reference value is computed from the matrix the user supplied
+                out.append((o, "Local2E" if two else "Local1"))
         elif u < 0.85:
             s = int(rng.integers(0, L - 1))
             out.append((Observable(str(rng.choice(["entropy", "schmidt_spectrum"])), [s, s + 1]), "Bond"))
@@ -191,8 +204,9 @@ def dense_value(v, L, o, kind):
     from mqt.yaqs.core.libraries.gate_library import GateLibrary
 
     name = o.gate.name
+    own = getattr(o, "_verif_matrix", None)
     if kind == "Local1":
-        m = np.asarray(getattr(GateLibrary, name)().matrix, dtype=complex)
+        m = np.asarray(getattr(GateLibrary, name)().matrix, dtype=complex) if own is None else own
         return dense.expect(v, dense.op_on(L, {first_site(o): m}))
     if kind == "Local2":
         s = first_site(o)
@@ -200,7 +214,7 @@ def dense_value(v, L, o, kind):
         return dense.expect(v, dense.op_on(L, {s: pa[0], s + 1: pa[1]}))
     if kind == "Local2E":
         s = first_site(o)
-        g = np.asarray(getattr(GateLibrary, name)().matrix, dtype=complex)  # site s = most significant factor
+        g = np.asarray(getattr(GateLibrary, name)().matrix, dtype=complex) if own is None else own  # site s = most significant factor
         w = v.reshape(2**s, 4, 2 ** (L - s - 2))
         return complex(np.einsum("apb,pq,aqb->", w.conj(), g, w))
     s = first_site(o)
